@@ -105,6 +105,7 @@ var Mutants = map[string][]Mutant{
 		{"arc cut relative to the arc start", "path.go", `ellipseSplit\(rx, ry, phi, cx, cy, startTheta, theta2, theta\)`, `ellipseSplit(rx, ry, phi, cx, cy, theta1, theta2, theta)`, "E11.cut-carried"},
 	},
 	"C06": {
+		{"inflection crossing demands a vanishing second derivative (reverts fix 6b4ba7e)", "path_intersection_util.go", `if Equal\(A\.Dot\(deriv2\), 0\.0\) \{`, "if Equal(deriv2.X, 0.0) && Equal(deriv2.Y, 0.0) {", "E9.inflection-across-line"},
 		{"pending end-point hit of Crossings declared outside the sub-path loop", "path.go", `(?s)(\tboundary := false\n)(\tfor _, pi := range p\.Split\(\) \{\n\t\t// Count intersections of ray with path, see windings\n\t\tni := 0\n)\t\tvar prev \*Intersection\n`, "$1\tvar prev *Intersection\n$2", "E9.pending-per-subpath"},
 		{"quad tangency recognised for the parallel direction only", "path_intersection_util.go", `zs = zs\.add\(pos, s, root, dira, dirb, endpoint \|\| Equal\(A\.Dot\(deriv\), 0\.0\), false\)`, "zs = zs.add(pos, s, root, dira, dirb, endpoint || angleEqual(dira, deriv.Angle()), false)", "E9.tangent-both-ways"},
 		{"CCW takes the arriving curvature without reversing it", "path.go", `curvPrev := -p\.curvature\(kPrev, 1\.0\)`, "curvPrev := p.curvature(kPrev, 1.0)", "E11.reversed-frame"},
@@ -124,6 +125,7 @@ var Mutants = map[string][]Mutant{
 		{"Windings looks at the whole path only", "path.go", `\tfor _, pi := range p\.Split\(\) \{\n\t\tzs := pi\.RayIntersections\(x, y\)`, "\tfor _, pi := range []*Path{p} {\n\t\tzs := pi.RayIntersections(x, y)", "E9.subpaths"},
 	},
 	"C07": {
+		{"RotateAbout adds the pivot correction into the translation column", "util.go", `return m\.Translate\(x, y\)\.Rotate\(rot\)\.Translate\(-x, -y\)`, "sintheta, costheta := math.Sincos(rot * math.Pi / 180.0)\n\tm = m.Rotate(rot)\n\tm[0][2] += x - (costheta*x - sintheta*y)\n\tm[1][2] += y - (sintheta*x + costheta*y)\n\treturn m", "E11.matrix-composers"},
 		{"translation of the inverse uses the wrong cofactor", "util.go", `-\(-m\[1\]\[0\]\*m\[0\]\[2\] \+ m\[0\]\[0\]\*m\[1\]\[2\]\) / det,`, "-(-m[0][1]*m[0][2] + m[0][0]*m[1][2]) / det,", "E11.matrix-inverse"},
 		{"inverse of the arc frame composed as m⁻¹·R(−φ)", "path.go", `(?s)T := m\.Rotate\(phi \* 180\.0 / math\.Pi\)\n\t\t\tinvT := T\.Inv\(\)`, "invT := m.Inv().Rotate(-phi * 180.0 / math.Pi)", "E11.conic-frame"},
 		{"inverse divided by the absolute determinant", "util.go", `\tdet := m\.Det\(\)\n\tif Equal\(det, 0\.0\) \{\n\t\tpanic\("determinant of affine`, "\tdet := math.Abs(m.Det())\n\tif det <= Epsilon {\n\t\tpanic(\"determinant of affine", "E11.matrix-inverse"},
@@ -146,6 +148,7 @@ var Mutants = map[string][]Mutant{
 		{"Rect.Add max reads the low field", "util.go", `x1 := math\.Max\(r\.X1, q\.X1\)`, `x1 := math.Max(r.X1, q.X0)`, "E3.mirror"},
 	},
 	"C09": {
+		{"leading zero stripped before the cut list is sorted", "path.go", `(?s)\tts = append\(\[\]float64\{\}, ts\.\.\.\) // don't sort the caller's slice\n\tsort\.Float64s\(ts\)\n\tif ts\[0\] == 0\.0 \{\n\t\tts = ts\[1:\]\n\t\}\n`, "\tif ts[0] == 0.0 {\n\t\tts = ts[1:]\n\t}\n\tif !sort.Float64sAreSorted(ts) {\n\t\tts = append([]float64{}, ts...)\n\t\tsort.Float64s(ts)\n\t}\n", "E11.cuts-sorted-before-use"},
 		{"remainder of a wide elliptical arc integrated from zero", "path_util.go", `(\treturn gaussLegendre5\(speed, theta1, theta2\)\n)`, "\tif dtheta := theta2 - theta1; math.Pi < dtheta {\n\t\treturn gaussLegendre5(speed, 0.0, math.Pi) + gaussLegendre5(speed, 0.0, dtheta-math.Pi)\n\t}\n${1}", "E11.quadrature-covers-arc"},
 		{"collinear cubic measured as its chord", "path_util.go", `(func cubicBezierLength\(p0, p1, p2, p3 Point\) float64 \{\n)`, "${1}\tif chord := p3.Sub(p0); !p0.Equals(p3) && Equal(chord.PerpDot(p1.Sub(p0)), 0.0) && Equal(chord.PerpDot(p2.Sub(p0)), 0.0) {\n\t\treturn chord.Length()\n\t}\n", "E9.chord-shortcut"},
 		{"circular arc length taken before the angles are ordered", "path_util.go", `func ellipseLength\(rx, ry, theta1, theta2 float64\) float64 \{\n`, "func ellipseLength(rx, ry, theta1, theta2 float64) float64 {\n\tif rx == ry {\n\t\treturn rx * (theta2 - theta1)\n\t}\n", "E11.normalise-first"},
@@ -242,6 +245,7 @@ var Mutants = map[string][]Mutant{
 		{"stroke keeps even-odd star", "renderers/pdf/pdf.go", `\t\t\tif closed \{\n\t\t\t\tr\.w\.Write\(\[\]byte\(" s"\)\)\n\t\t\t\} else \{\n\t\t\t\tr\.w\.Write\(\[\]byte\(" S"\)\)\n\t\t\t\}\n\t\t\} else if style\.HasFill\(\) && style\.HasStroke\(\) \{`, "\t\t\tif closed {\n\t\t\t\tr.w.Write([]byte(\" s\"))\n\t\t\t} else {\n\t\t\t\tr.w.Write([]byte(\" S\"))\n\t\t\t}\n\t\t\tif style.FillRule == canvas.EvenOdd {\n\t\t\t\tr.w.Write([]byte(\"*\"))\n\t\t\t}\n\t\t} else if style.HasFill() && style.HasStroke() {", "E5.grammar"},
 	},
 	"C14": {
+		{"scanner sink skips curve segments that end where they start", "path.go", `(?s)(func \(p \*Path\) ToScanxScanner.*?\t\t\tif 0 < i \{\n\t\t\t\tstart = Point\{p\.d\[i-3\], p\.d\[i-2\]\}\n\t\t\t\}\n)`, "${1}\t\t\tif n := cmdLen(cmd); start.Equals(Point{p.d[i+n-3], p.d[i+n-2]}) {\n\t\t\t\tbreak\n\t\t\t}\n", "E11.sink-forwards-every-segment"},
 		{"colour space conversion loops to the width of the image", "renderers/rasterizer/util.go", `(?s)(if dstRGBA, ok := dst\.\(\*image\.RGBA\); ok \{\n\t\tfor j := b\.Min\.Y; j < b\.Max\.Y; j\+\+ \{\n\t\t\t)for i := b\.Min\.X; i < b\.Max\.X; i\+\+ \{`, "${1}for i := 0; i < b.Dx(); i++ {", "E11.pixel-loop-bounds"},
 		{"hatch tile scanned with the path's fill rule", "renderers/rasterizer/rasterizer.go", `\t\t\t\tr\.scanner\.SetWinding\(true\) // the tile is the outline[^\n]*\n`, "", "E6.winding-mode"},
 		{"early-out on bounds that a dashed stroke's outline replaced", "renderers/rasterizer/rasterizer.go", `(?s)\t\tif style\.HasFill\(\) \{\n\t\t\tbounds = bounds\.Add\(stroke\.FastBounds\(\)\)\n\t\t\} else \{\n\t\t\tbounds = stroke\.FastBounds\(\)\n\t\t\}\n(.*?)(\tif style\.HasFill\(\) \{\n\t\tr\.scanner\.SetWinding)`, "\t\tbounds = stroke.FastBounds()\n${1}\tif bounds.X1*dpmm <= 0.0 || float64(size.X) <= bounds.X0*dpmm {\n\t\treturn\n\t}\n${2}", "E6.skip-bounds-cover"},
@@ -261,6 +265,7 @@ var Mutants = map[string][]Mutant{
 		{"rasterizer ignores the fill rule", "renderers/rasterizer/rasterizer.go", `\t\tr\.scanner\.SetWinding\(style\.FillRule != canvas\.EvenOdd\)\n`, ``, "E6.style-field"},
 	},
 	"C15": {
+		{"Clip translates each layer matrix on the right", "canvas.go", `\tc\.Transform\(Identity\.Translate\(-rect\.X0, -rect\.Y0\)\)\n`, "\tfor _, layers := range c.layers {\n\t\tfor i := range layers {\n\t\t\tlayers[i].m = layers[i].m.Translate(-rect.X0, -rect.Y0)\n\t\t}\n\t}\n", "E11.layer-matrix-left"},
 		{"coordinate-system matrix cached when the system is set", "canvas.go", `(?s)(\tcoordSystem CoordSystem\n\})(.*?)func \(c \*Context\) CoordSystemView\(\) Matrix \{\n\t// a function since renderer's width/height may change\n\tswitch c\.coordSystem \{(.*?\n\}\n)(.*?)(\tc\.coordSystem = coordSystem\n)`, "\tcoordSystem CoordSystem\n\tsystemView  Matrix\n}${2}func (c *Context) CoordSystemView() Matrix {\n\treturn c.systemView\n}\n\nfunc (c *Context) coordSystemMatrix(coordSystem CoordSystem) Matrix {\n\tswitch coordSystem {${3}${4}${5}\tc.systemView = c.coordSystemMatrix(coordSystem)\n", "E11.draw-matrix"},
 		{"Stroke returns before resetting the path when there is no stroke", "canvas.go", `(func \(c \*Context\) Stroke\(\) \{\n)`, "${1}\tif !c.Style.HasStroke() {\n\t\treturn\n\t}\n", "E11.ctx-restore"},
 		{"Pop without its empty-stack guard", "canvas.go", `(?s)(func \(c \*Context\) Pop\(\) \{\n)\tif len\(c\.stack\) == 0 \{\n\t\treturn\n\t\}\n`, "${1}", "E11.ctx-stack"},
